@@ -212,11 +212,12 @@ def sequence_run(hz, ops, capacity=2):
     GF.print = lambda *a, **k: None
     inner = getattr(GF._filter_function, '__wrapped__', GF._filter_function)
     GF._filter_function = functools.lru_cache(maxsize=capacity)(inner)
-    tags = ['ta', 'tb', 'tc', 'td']
-    texts = ['%s and id' % t for t in tags]
-    g = hz.Grid(version='3.0', columns=[('id', [])] + [(t, []) for t in tags])
-    for i, t in enumerate(tags):
-        g.append({'id': 'r%d' % i, t: hz.MARKER})
+    # four filters of one shape whose literals are equal-and-hash-alike in Python but of different Haystack kinds
+    # (Bool true / Number 1, Bool false / Number 0): anything keyed by the shape or by the literal's hash mixes them up
+    texts = ['v == true and id', 'v == 1 and id', 'v == false and id', 'v == 0 and id']
+    g = hz.Grid(version='3.0', columns=[('id', []), ('v', [])])
+    for i, v in enumerate([True, 1, False, 0]):
+        g.append({'id': 'r%d' % i, 'v': v})
     held = {}
     for k, (fi, use_held) in enumerate(ops):
         want = ['r%d' % fi]
